@@ -2,11 +2,12 @@ import libcst as cst
 from libcst import matchers as m
 
 from codemodder.codemods.libcst_transformer import LibcstTransformerPipeline
+from codemodder.codemods.utils_mixin import NameResolutionMixin
 from core_codemods.api import Metadata, ReviewGuidance, SimpleCodemod
 from core_codemods.api.core_codemod import CoreCodemod
 
 
-class FixMutableParamsTransformer(SimpleCodemod):
+class FixMutableParamsTransformer(SimpleCodemod, NameResolutionMixin):
     change_description = "Replace mutable parameter with `None`."
 
     _BUILTIN_TO_LITERAL = {
@@ -63,7 +64,10 @@ class FixMutableParamsTransformer(SimpleCodemod):
             updated_node.params.params,
         ):
             needs_update = False
-            if orig.default is not None:
+            # a default that reads a class-level name cannot move into the method body: the name is not visible there
+            if orig.default is not None and not self.reads_class_level_name(
+                orig.default
+            ):
                 if m.matches(orig.default, self._matches_literal):
                     # We can reuse the original literal value in this case
                     new_var_decls.append(orig)
